@@ -1,6 +1,7 @@
 package props
 
 import (
+	"encoding/json"
 	"fmt"
 	"regexp"
 	"sort"
@@ -15,6 +16,10 @@ import (
 // ---- DESIGN A.7: dialect normalisation ----
 
 func num(v any) (float64, bool) {
+	if n, isNum := v.(json.Number); isNum {
+		f, err := n.Float64()
+		return f, err == nil
+	}
 	f, ok := v.(float64)
 	return f, ok
 }
